@@ -143,3 +143,665 @@ Proof.
   - unfold wadd at 1 2. rewrite wrap64_add_r, wsub_wrap_l. unfold wadd. f_equal. lia.
   - unfold wadd. rewrite wsub_wrap_l. rewrite <- Hr at 2. f_equal. lia.
 Qed.
+
+(* ------------------------------------------------------------------ the optional-monoid family *)
+Section OptFoldProofs.
+  Context {T : Type} (f : T -> T -> T).
+  Hypothesis f_assoc : forall a b c, f (f a b) c = f a (f b c).
+
+  Lemma fold_left_f_assoc r : forall a x, f a (fold_left f r x) = fold_left f r (f a x).
+  Proof. induction r as [|y r IH]; intros; cbn [fold_left]; [reflexivity|]. now rewrite IH, f_assoc. Qed.
+
+  Lemma reduce_app xs ys : reduce f (xs ++ ys) = comb f (reduce f xs) (reduce f ys).
+  Proof.
+    destruct xs as [|x r]; [reflexivity|]. cbn [app reduce]. rewrite fold_left_app.
+    destruct ys as [|y r2]; [reflexivity|]. cbn [fold_left reduce comb]. now rewrite fold_left_f_assoc.
+  Qed.
+  Lemma comb_assoc a b c : comb f (comb f a b) c = comb f a (comb f b c).
+  Proof. destruct a, b, c; cbn [comb]; try reflexivity. now rewrite f_assoc. Qed.
+  Lemma comb_none_r a : comb f a None = a.
+  Proof. now destruct a. Qed.
+
+  Lemma og_update_split_gen s a b : og_update f s (a ++ b) = og_update f (og_update f s a) b.
+  Proof. unfold og_update. now rewrite somes_app, reduce_app, comb_assoc. Qed.
+
+  Lemma reduce_somes_parts (parts : list (list (option T))) :
+    reduce f (somes (map (fun p => og_update f None p) parts)) = reduce f (somes (concat parts)).
+  Proof.
+    induction parts as [|p r IH]; [reflexivity|].
+    cbn [map concat]. rewrite somes_app, reduce_app, <- IH.
+    change (og_update f None p :: map (fun p0 => og_update f None p0) r)
+      with ([og_update f None p] ++ map (fun p0 => og_update f None p0) r).
+    rewrite somes_app, reduce_app. f_equal.
+    unfold og_update. cbn [comb]. destruct (reduce f (somes p)); reflexivity.
+  Qed.
+
+  Hypothesis f_comm : forall a b, f a b = f b a.
+  Lemma reduce_cons x l : reduce f (x :: l) = comb f (Some x) (reduce f l).
+  Proof. change (x :: l) with ([x] ++ l). now rewrite reduce_app. Qed.
+  Lemma reduce_perm xs ys : Permutation xs ys -> reduce f xs = reduce f ys.
+  Proof.
+    induction 1.
+    - reflexivity.
+    - now rewrite !reduce_cons, IHPermutation.
+    - rewrite !reduce_cons, <- !comb_assoc. f_equal. cbn [comb]. now rewrite f_comm.
+    - congruence.
+  Qed.
+  Lemma og_update_perm s a b : Permutation a b -> og_update f s a = og_update f s b.
+  Proof. intros H. unfold og_update. now rewrite (reduce_perm _ _ (somes_perm _ _ H)). Qed.
+End OptFoldProofs.
+
+Lemma zcell_zres o : zcell [zres o] = o. Proof. now destruct o. Qed.
+Lemma bcell_bres o : bcell [bres o] = o. Proof. now destruct o. Qed.
+
+Section OgInstances.
+  Variable f : Z -> Z -> Z.
+  Hypothesis f_assoc : forall a b c, f (f a b) c = f a (f b c).
+  Variable retr : bool.
+  Lemma ogz_update_split : update_split (og_acc_z f retr).
+  Proof. intros s a b. cbn. now apply og_update_split_gen. Qed.
+  Lemma ogz_merge_hom : merge_hom (og_acc_z f retr).
+  Proof.
+    intros s parts. cbn. rewrite map_map. erewrite map_ext by (intros; apply zcell_zres).
+    unfold og_update. f_equal. exact (reduce_somes_parts f f_assoc parts).
+  Qed.
+  Lemma ogz_merge_split : merge_split (og_acc_z f retr).
+  Proof. intros s a b. cbn. rewrite map_app. now apply og_update_split_gen. Qed.
+  Hypothesis f_comm : forall a b, f a b = f b a.
+  Lemma ogz_merge_comm : forall s ws ws', Permutation ws ws' ->
+    a_merge (og_acc_z f retr) s ws = a_merge (og_acc_z f retr) s ws'.
+  Proof. intros. cbn. apply og_update_perm; auto. now apply Permutation_map. Qed.
+  Lemma ogz_update_comm : forall s a b, Permutation a b ->
+    a_update (og_acc_z f retr) s a = a_update (og_acc_z f retr) s b.
+  Proof. intros. cbn. now apply og_update_perm. Qed.
+End OgInstances.
+Section OgInstancesB.
+  Variable f : bool -> bool -> bool.
+  Hypothesis f_assoc : forall a b c, f (f a b) c = f a (f b c).
+  Lemma ogb_update_split : update_split (og_acc_b f).
+  Proof. intros s a b. cbn. now apply og_update_split_gen. Qed.
+  Lemma ogb_merge_hom : merge_hom (og_acc_b f).
+  Proof.
+    intros s parts. cbn. rewrite map_map. erewrite map_ext by (intros; apply bcell_bres).
+    unfold og_update. f_equal. exact (reduce_somes_parts f f_assoc parts).
+  Qed.
+  Lemma ogb_merge_split : merge_split (og_acc_b f).
+  Proof. intros s a b. cbn. rewrite map_app. now apply og_update_split_gen. Qed.
+  Hypothesis f_comm : forall a b, f a b = f b a.
+  Lemma ogb_merge_comm : forall s ws ws', Permutation ws ws' ->
+    a_merge (og_acc_b f) s ws = a_merge (og_acc_b f) s ws'.
+  Proof. intros. cbn. apply og_update_perm; auto. now apply Permutation_map. Qed.
+End OgInstancesB.
+
+Lemma zmin_assoc a b c : Z.min (Z.min a b) c = Z.min a (Z.min b c). Proof. symmetry. apply Z.min_assoc. Qed.
+Lemma zmax_assoc a b c : Z.max (Z.max a b) c = Z.max a (Z.max b c). Proof. symmetry. apply Z.max_assoc. Qed.
+Lemma zland_assoc a b c : Z.land (Z.land a b) c = Z.land a (Z.land b c). Proof. symmetry. apply Z.land_assoc. Qed.
+Lemma zlor_assoc a b c : Z.lor (Z.lor a b) c = Z.lor a (Z.lor b c). Proof. symmetry. apply Z.lor_assoc. Qed.
+Lemma zlxor_assoc a b c : Z.lxor (Z.lxor a b) c = Z.lxor a (Z.lxor b c). Proof. apply Z.lxor_assoc. Qed.
+Lemma andb_assoc' a b c : andb (andb a b) c = andb a (andb b c). Proof. now destruct a, b, c. Qed.
+Lemma orb_assoc' a b c : orb (orb a b) c = orb a (orb b c). Proof. now destruct a, b, c. Qed.
+
+(* ------------------------------------------------------------------ merge_hom from its one-partition form *)
+Lemma merge_hom_from (A : accum) :
+  merge_split A -> update_split A ->
+  (forall s, a_merge A s [] = s) -> (forall s, a_update A s [] = s) ->
+  (forall s p, a_merge A s [a_state A (a_update A (a_init A) p)] = a_update A s p) ->
+  merge_hom A.
+Proof.
+  intros Hms Hus Hm0 Hu0 H1 s parts. revert s.
+  induction parts as [|p r IH]; intros s; cbn [map concat].
+  - now rewrite Hm0, Hu0.
+  - change (a_state A (a_update A (a_init A) p) :: map (fun p0 => a_state A (a_update A (a_init A) p0)) r)
+      with ([a_state A (a_update A (a_init A) p)] ++ map (fun p0 => a_state A (a_update A (a_init A) p0)) r).
+    now rewrite Hms, H1, IH, Hus.
+Qed.
+
+(* ------------------------------------------------------------------ AVG *)
+Lemma exact_sum_app a b :
+  exact_sum (a ++ b) =
+  match exact_sum a, exact_sum b with
+  | None, y => y
+  | x, None => x
+  | Some x, Some y => Some (x + y)
+  end.
+Proof.
+  unfold exact_sum. rewrite somes_app.
+  destruct (somes a) as [|x xs] eqn:Ea; [reflexivity|].
+  destruct (somes b) as [|y ys] eqn:Eb.
+  - now rewrite app_nil_r.
+  - cbn [app]. change (x :: xs ++ y :: ys) with ((x :: xs) ++ (y :: ys)). now rewrite zsum_app.
+Qed.
+Lemma avg_update_split : update_split avg_acc.
+Proof.
+  intros [s c] a b. cbn. rewrite exact_sum_app, nonnull_count_app.
+  destruct (exact_sum a), (exact_sum b), s; cbn [avg_add]; f_equal; try lia; f_equal; lia.
+Qed.
+Lemma avg_merge_split : merge_split avg_acc.
+Proof.
+  intros [s c] a b. cbn. rewrite !map_app, exact_sum_app, somes_app, zsum_app.
+  destruct (exact_sum (map (fun r => zcell (tl r)) a)), (exact_sum (map (fun r => zcell (tl r)) b)), s;
+    cbn [avg_add]; f_equal; try lia; f_equal; lia.
+Qed.
+Lemma avg_merge_one s p : a_merge avg_acc s [a_state avg_acc (a_update avg_acc (a_init avg_acc) p)] = a_update avg_acc s p.
+Proof.
+  destruct s as [s c]. cbn. f_equal; [|lia].
+  unfold exact_sum at 1. cbn [map tl zcell somes flat_map].
+  destruct (exact_sum p) as [x|]; cbn [avg_add zres zcell app zsum fold_right]; [|reflexivity].
+  destruct s; f_equal; lia.
+Qed.
+Lemma avg_merge_hom : merge_hom avg_acc.
+Proof.
+  apply merge_hom_from.
+  - exact avg_merge_split.
+  - exact avg_update_split.
+  - intros [s c]. cbn. f_equal. lia.
+  - intros [s c]. cbn. f_equal. unfold nonnull_count. cbn. lia.
+  - exact avg_merge_one.
+Qed.
+Lemma exact_sum_perm a b : Permutation a b -> exact_sum a = exact_sum b.
+Proof.
+  intros H. apply somes_perm in H. unfold exact_sum.
+  destruct (somes a) eqn:Ea, (somes b) eqn:Eb.
+  - reflexivity.
+  - apply Permutation_nil in H. discriminate.
+  - symmetry in H. apply Permutation_nil in H. discriminate.
+  - now rewrite (zsum_perm _ _ H).
+Qed.
+Lemma avg_merge_comm : forall s ws ws', Permutation ws ws' -> a_merge avg_acc s ws = a_merge avg_acc s ws'.
+Proof.
+  intros [s c] ws ws' H. cbn. f_equal.
+  - f_equal. apply exact_sum_perm. now apply Permutation_map.
+  - f_equal. apply zsum_perm, somes_perm. now apply Permutation_map.
+Qed.
+(* reachable states: a positive count comes with a sum *)
+Definition avg_wf (s : option Z * Z) : Prop := snd s <> 0 -> fst s <> None.
+Lemma avg_wf_init : avg_wf (a_init avg_acc). Proof. intros H. now elim H. Qed.
+Lemma nonnull_count_nonneg {A} (l : list (option A)) : 0 <= nonnull_count l.
+Proof. unfold nonnull_count. lia. Qed.
+Lemma exact_sum_none_count l : exact_sum l = None -> nonnull_count l = 0.
+Proof. unfold exact_sum, nonnull_count. destruct (somes l); [reflexivity|discriminate]. Qed.
+Lemma avg_wf_update s (l : list (option Z)) : 0 <= snd s -> avg_wf s -> avg_wf (a_update avg_acc s l) /\ 0 <= snd (a_update avg_acc s l).
+Proof.
+  destruct s as [s c]. unfold avg_wf. cbn. intros Hc Hw. pose proof (nonnull_count_nonneg l). split; [|lia].
+  intros Hn. destruct (exact_sum l) eqn:E; cbn [avg_add]; [discriminate|].
+  apply exact_sum_none_count in E. apply Hw. lia.
+Qed.
+Lemma avg_retract_inverse : forall s a b, avg_wf s ->
+  a_eval avg_acc (a_retract avg_acc (a_update avg_acc s (a ++ b)) a) = a_eval avg_acc (a_update avg_acc s b).
+Proof.
+  intros [s c] a b Hw. unfold avg_wf in Hw. cbn in *. unfold avg_eval. cbn [fst snd].
+  rewrite nonnull_count_app, exact_sum_app.
+  replace (c + (nonnull_count a + nonnull_count b) - nonnull_count a) with (c + nonnull_count b) by lia.
+  destruct (c + nonnull_count b =? 0) eqn:E0; [reflexivity|].
+  apply Z.eqb_neq in E0.
+  destruct (exact_sum a) as [x|] eqn:Ea; [|reflexivity].
+  destruct (exact_sum b) as [y|] eqn:Eb; cbn [avg_add].
+  - f_equal. destruct s; lia.
+  - apply exact_sum_none_count in Eb. destruct s as [v|]; [f_equal; lia|].
+    exfalso. apply Hw; [lia|reflexivity].
+Qed.
+
+(* ------------------------------------------------------------------ FIRST_VALUE / LAST_VALUE *)
+Lemma first_pick_app ign a b :
+  first_pick ign (a ++ b) = match first_pick ign a with Some v => Some v | None => first_pick ign b end.
+Proof.
+  unfold first_pick. destruct ign.
+  - rewrite somes_app. destruct (somes a); reflexivity.
+  - destruct a; reflexivity.
+Qed.
+Lemma first_update_split ign : update_split (first_acc ign).
+Proof.
+  intros [v [|]] a b; cbn; [reflexivity|]. rewrite first_pick_app.
+  destruct (first_pick ign a); cbn; reflexivity.
+Qed.
+Lemma fl_set_rows_app a b : fl_set_rows (a ++ b) = fl_set_rows a ++ fl_set_rows b.
+Proof. unfold fl_set_rows. apply flat_map_app. Qed.
+Lemma first_merge_split ign : merge_split (first_acc ign).
+Proof.
+  intros [v [|]] a b; cbn; [reflexivity|]. rewrite fl_set_rows_app.
+  destruct (fl_set_rows a); cbn; reflexivity.
+Qed.
+Lemma first_merge_one ign s p :
+  a_merge (first_acc ign) s [a_state (first_acc ign) (a_update (first_acc ign) (a_init (first_acc ign)) p)]
+  = a_update (first_acc ign) s p.
+Proof.
+  destruct s as [v [|]]; cbn; [reflexivity|].
+  destruct (first_pick ign p) as [w|]; cbn; [|reflexivity]. destruct w; reflexivity.
+Qed.
+Lemma first_merge_hom ign : merge_hom (first_acc ign).
+Proof.
+  apply merge_hom_from.
+  - apply first_merge_split.
+  - apply first_update_split.
+  - intros [v [|]]; reflexivity.
+  - intros [v [|]]; cbn; [reflexivity|]. unfold first_pick. destruct ign; reflexivity.
+  - apply first_merge_one.
+Qed.
+
+Lemma last_update_split_raw ign (s : fl_st) (a b : list (option Z)) :
+  match last_pick ign (a ++ b) with Some v => (v, true) | None => s end
+  = match last_pick ign b with
+    | Some v => (v, true)
+    | None => match last_pick ign a with Some v => (v, true) | None => s end
+    end.
+Proof. unfold last_pick. rewrite rev_app_distr, first_pick_app. destruct (first_pick ign (rev b)); reflexivity. Qed.
+Lemma last_update_split ign : update_split (last_acc ign).
+Proof. intros s a b. apply last_update_split_raw. Qed.
+Lemma last_merge_split ign : merge_split (last_acc ign).
+Proof.
+  intros s a b. cbn. rewrite fl_set_rows_app, rev_app_distr.
+  destruct (rev (fl_set_rows b)); cbn [app]; reflexivity.
+Qed.
+Lemma last_merge_one ign s p :
+  a_merge (last_acc ign) s [a_state (last_acc ign) (a_update (last_acc ign) (a_init (last_acc ign)) p)]
+  = a_update (last_acc ign) s p.
+Proof.
+  cbn. destruct (last_pick ign p) as [w|]; cbn; [|reflexivity]. destruct w; reflexivity.
+Qed.
+Lemma last_merge_hom ign : merge_hom (last_acc ign).
+Proof.
+  apply merge_hom_from.
+  - apply last_merge_split.
+  - apply last_update_split.
+  - intros s; reflexivity.
+  - intros s; cbn. unfold last_pick, first_pick. destruct ign; reflexivity.
+  - apply last_merge_one.
+Qed.
+
+(* ------------------------------------------------------------------ MEDIAN *)
+Lemma median_update_split : update_split median_acc.
+Proof. intros s a b. cbn. now rewrite somes_app, app_assoc. Qed.
+Lemma median_merge_split : merge_split median_acc.
+Proof. intros s a b. cbn. now rewrite map_app, concat_app, app_assoc. Qed.
+Lemma median_merge_hom : merge_hom median_acc.
+Proof.
+  apply merge_hom_from.
+  - exact median_merge_split.
+  - exact median_update_split.
+  - intros s. cbn. apply app_nil_r.
+  - intros s. cbn. apply app_nil_r.
+  - intros s p. cbn. now rewrite app_nil_r.
+Qed.
+Lemma insert_comm x y l : insert_sorted x (insert_sorted y l) = insert_sorted y (insert_sorted x l).
+Proof.
+  induction l as [|a l IH]; cbn [insert_sorted].
+  - destruct (x <=? y) eqn:E1, (y <=? x) eqn:E2; try reflexivity.
+    + apply Z.leb_le in E1, E2. assert (x = y) by lia. now subst.
+    + apply Z.leb_gt in E1, E2. lia.
+  - destruct (y <=? a) eqn:Eya, (x <=? a) eqn:Exa; cbn [insert_sorted];
+      destruct (x <=? y) eqn:Exy; destruct (y <=? x) eqn:Eyx;
+      rewrite ?Eya, ?Exa; try reflexivity;
+      try (apply Z.leb_le in Exy); try (apply Z.leb_le in Eyx); try (apply Z.leb_gt in Exy);
+      try (apply Z.leb_gt in Eyx); try (apply Z.leb_le in Eya); try (apply Z.leb_le in Exa);
+      try (apply Z.leb_gt in Eya); try (apply Z.leb_gt in Exa); try lia.
+    + assert (x = y) by lia. now subst.
+    + now rewrite IH.
+    + now rewrite IH.
+    + now rewrite IH.
+Qed.
+Lemma isort_perm a b : Permutation a b -> isort a = isort b.
+Proof.
+  induction 1; cbn [isort fold_right] in *.
+  - reflexivity.
+  - fold (isort l). fold (isort l'). now rewrite IHPermutation.
+  - fold (isort l). apply insert_comm.
+  - congruence.
+Qed.
+Lemma median_eval_perm a b : Permutation a b -> median_eval a = median_eval b.
+Proof. intros H. unfold median_eval. now rewrite (isort_perm _ _ H), (Permutation_length H). Qed.
+Lemma flat_map_perm {A B} (g : A -> list B) a b : Permutation a b -> Permutation (flat_map g a) (flat_map g b).
+Proof.
+  induction 1; cbn [flat_map] in *.
+  - constructor.
+  - now apply Permutation_app_head.
+  - rewrite !app_assoc. apply Permutation_app_tail, Permutation_app_comm.
+  - eapply perm_trans; eauto.
+Qed.
+Lemma median_merge_comm : forall s ws ws', Permutation ws ws' ->
+  a_eval median_acc (a_merge median_acc s ws) = a_eval median_acc (a_merge median_acc s ws').
+Proof.
+  intros. cbn. apply median_eval_perm, Permutation_app_head.
+  rewrite <- !flat_map_concat_map. now apply flat_map_perm.
+Qed.
+Lemma median_update_comm : forall s a b, Permutation a b ->
+  a_eval median_acc (a_update median_acc s a) = a_eval median_acc (a_update median_acc s b).
+Proof. intros. cbn. apply median_eval_perm, Permutation_app_head. now apply somes_perm. Qed.
+
+(* ------------------------------------------------------------------ COUNT(DISTINCT) *)
+Lemma set_add_in s y x : In x (set_add s y) <-> x = y \/ In x s.
+Proof.
+  unfold set_add. destruct (existsb (Z.eqb y) s) eqn:E.
+  - apply existsb_exists in E. destruct E as [z [Hz Hyz]]. apply Z.eqb_eq in Hyz. subst z.
+    split; [auto|]. intros [->|H]; assumption.
+  - cbn. split; intros [H|H]; auto.
+Qed.
+Lemma set_add_nodup s y : NoDup s -> NoDup (set_add s y).
+Proof.
+  intros H. unfold set_add. destruct (existsb (Z.eqb y) s) eqn:E; [assumption|].
+  constructor; [|assumption]. intros Hin.
+  assert (existsb (Z.eqb y) s = true) by (apply existsb_exists; exists y; split; [assumption|apply Z.eqb_refl]).
+  congruence.
+Qed.
+Lemma fold_set_add_in l : forall s x, In x (fold_left set_add l s) <-> In x l \/ In x s.
+Proof.
+  induction l as [|y l IH]; intros; cbn [fold_left].
+  - cbn. tauto.
+  - rewrite IH, set_add_in. cbn. intuition congruence.
+Qed.
+Lemma fold_set_add_nodup l : forall s, NoDup s -> NoDup (fold_left set_add l s).
+Proof. induction l; intros; cbn [fold_left]; auto using set_add_nodup. Qed.
+Lemma count_distinct_update_split : update_split count_distinct_acc.
+Proof. intros s a b. cbn. now rewrite somes_app, fold_left_app. Qed.
+Lemma count_distinct_merge_split : merge_split count_distinct_acc.
+Proof. intros s a b. cbn. now rewrite map_app, concat_app, fold_left_app. Qed.
+Lemma same_members_card (a b : list Z) : NoDup a -> NoDup b -> (forall x, In x a <-> In x b) -> length a = length b.
+Proof. intros. apply Permutation_length, NoDup_Permutation; assumption. Qed.
+Lemma in_somes {A} (x : A) l : In x (somes l) <-> In (Some x) l.
+Proof.
+  unfold somes. rewrite in_flat_map. split.
+  - intros [[y|] [H1 H2]]; cbn in H2; [destruct H2 as [->|[]]; assumption|destruct H2].
+  - intros H. exists (Some x). split; [assumption|now left].
+Qed.
+Lemma count_distinct_members s parts x :
+  In x (a_merge count_distinct_acc s
+          (map (fun p => a_state count_distinct_acc (a_update count_distinct_acc (a_init count_distinct_acc) p)) parts))
+  <-> In x (a_update count_distinct_acc s (concat parts)).
+Proof.
+  cbn. rewrite !fold_set_add_in. rewrite map_map. cbn [wire_list].
+  rewrite in_concat, in_somes, in_concat.
+  split; (intros [H|H]; [left|now right]).
+  - destruct H as [l [Hl Hx]]. apply in_map_iff in Hl. destruct Hl as [p [<- Hp]].
+    apply fold_set_add_in in Hx. destruct Hx as [Hx|[]]. exists p. split; [assumption|now apply in_somes].
+  - destruct H as [p [Hp Hx]]. exists (fold_left set_add (somes p) []). split.
+    + apply in_map_iff. now exists p.
+    + apply fold_set_add_in. left. now apply in_somes.
+Qed.
+Lemma count_distinct_merge_hom s parts : NoDup s ->
+  a_eval count_distinct_acc (a_merge count_distinct_acc s
+     (map (fun p => a_state count_distinct_acc (a_update count_distinct_acc (a_init count_distinct_acc) p)) parts))
+  = a_eval count_distinct_acc (a_update count_distinct_acc s (concat parts)).
+Proof.
+  intros Hs. cbn [a_eval count_distinct_acc]. do 2 f_equal. apply same_members_card.
+  - cbn. now apply fold_set_add_nodup.
+  - cbn. now apply fold_set_add_nodup.
+  - intros x. apply count_distinct_members.
+Qed.
+Lemma count_distinct_merge_comm s ws ws' : NoDup s -> Permutation ws ws' ->
+  a_eval count_distinct_acc (a_merge count_distinct_acc s ws) = a_eval count_distinct_acc (a_merge count_distinct_acc s ws').
+Proof.
+  intros Hs H. cbn. do 2 f_equal. apply same_members_card; try now apply fold_set_add_nodup.
+  intros x. rewrite !fold_set_add_in. rewrite <- !flat_map_concat_map.
+  pose proof (flat_map_perm wire_list _ _ H) as P.
+  split; (intros [Hx|Hx]; [left|now right]).
+  - eapply Permutation_in; eauto.
+  - eapply Permutation_in; [symmetry|]; eauto.
+Qed.
+
+(* ------------------------------------------------------------------ BIT_XOR retraction does not restore NULL *)
+Lemma bit_xor_retract_refuted :
+  exists s a b, a_eval bit_xor_acc (a_retract bit_xor_acc (a_update bit_xor_acc s (a ++ b)) a)
+                <> a_eval bit_xor_acc (a_update bit_xor_acc s b).
+Proof. exists None, [Some 1], [None]. vm_compute. discriminate. Qed.
+
+(* ================================================================== the vectorised accumulator *)
+Lemma upd_nth_length {A} n (x : A) l : length (upd_nth n x l) = length l.
+Proof. revert n; induction l; destruct n; cbn; auto. Qed.
+Lemma nth_upd_nth {A} (d : A) l : forall n k x, (n < length l)%nat ->
+  nth k (upd_nth n x l) d = if (k =? n)%nat then x else nth k l d.
+Proof.
+  induction l as [|y l IH]; intros n k x Hn; [cbn in Hn; lia|].
+  destruct n, k; cbn [upd_nth nth Nat.eqb]; try reflexivity.
+  apply IH. cbn in Hn. lia.
+Qed.
+Lemma resize_length {C} (c : list C) total d : (length c <= total)%nat -> length (resize c total d) = total.
+Proof. intros. unfold resize. rewrite firstn_length, app_length, repeat_length. lia. Qed.
+Lemma resize_nth {C} (c : list C) total d g : (length c <= total)%nat -> nth g (resize c total d) d = nth g c d.
+Proof.
+  intros H. unfold resize. rewrite firstn_all2 by (rewrite app_length, repeat_length; lia).
+  destruct (Nat.lt_ge_cases g (length c)).
+  - now rewrite app_nth1.
+  - rewrite app_nth2 by assumption. rewrite (nth_overflow c) by assumption.
+    destruct (Nat.lt_ge_cases (g - length c) (total - length c)).
+    + now rewrite nth_repeat.
+    + apply nth_overflow. now rewrite repeat_length.
+Qed.
+
+Definition rows_below {V} (total : nat) (rows : list (grow V)) : Prop :=
+  Forall (fun r => (row_group r < total)%nat) rows.
+
+Lemma apply_rows_length {C V} (step : C -> V -> C) d rows : forall cells,
+  length (apply_rows step d cells rows) = length cells.
+Proof.
+  induction rows as [|r0 rows IH]; intros; [reflexivity|].
+  destruct r0 as [[g [v|]] [|]]; unfold apply_rows in *; cbn [fold_left]; rewrite IH; try reflexivity.
+  apply upd_nth_length.
+Qed.
+Lemma apply_rows_nth {C V} (step : C -> V -> C) d g rows : forall cells,
+  rows_below (length cells) rows ->
+  nth g (apply_rows step d cells rows) d = fold_left step (live_vals g rows) (nth g cells d).
+Proof.
+  induction rows as [|r0 rows IH]; intros cells Hb; [reflexivity|].
+  destruct r0 as [[g' [v|]] [|]]; inversion Hb as [|r rs Hr Hrs]; subst;
+    cbn [live_vals flat_map app]; fold (live_vals g rows); unfold apply_rows; cbn [fold_left]; fold (apply_rows step d);
+    try (apply IH; assumption).
+  unfold row_group in Hr. cbn in Hr.
+  fold (apply_rows step d (upd_nth g' (step (nth g' cells d) v) cells) rows).
+  rewrite IH by (now rewrite upd_nth_length).
+  rewrite nth_upd_nth by assumption.
+  destruct (g' =? g)%nat eqn:E.
+  - apply Nat.eqb_eq in E. subst g'. rewrite Nat.eqb_refl. reflexivity.
+  - rewrite Nat.eqb_sym, E. reflexivity.
+Qed.
+
+(* the seen bitmap *)
+Definition seen_len (s : seen) : nat := match s with SAll n => n | SSome l => length l end.
+Lemma nth_pad_bits l total g : nth g (pad_bits l total) false = nth g l false.
+Proof.
+  unfold pad_bits. destruct (Nat.lt_ge_cases g (length l)).
+  - now rewrite app_nth1.
+  - rewrite app_nth2 by assumption. rewrite (nth_overflow l) by assumption.
+    destruct (Nat.lt_ge_cases (g - length l) (total - length l)).
+    + now rewrite nth_repeat.
+    + apply nth_overflow. now rewrite repeat_length.
+Qed.
+Lemma nth_repeat_true n g : nth g (repeat true n) false = (g <? n)%nat.
+Proof.
+  destruct (Nat.lt_ge_cases g n).
+  - rewrite (nth_indep _ false true) by (now rewrite repeat_length). rewrite nth_repeat. symmetry. now apply Nat.ltb_lt.
+  - rewrite nth_overflow by (now rewrite repeat_length). symmetry. now apply Nat.ltb_ge.
+Qed.
+Lemma get_builder_nth s total g : nth g (get_builder s total) false = seen_bit s g.
+Proof. destruct s; cbn [get_builder seen_bit]; rewrite nth_pad_bits; [apply nth_repeat_true|reflexivity]. Qed.
+Lemma get_builder_length s total : (seen_len s <= total)%nat -> length (get_builder s total) = total.
+Proof. destruct s; cbn; intros; unfold pad_bits; rewrite app_length, ?repeat_length; lia. Qed.
+
+Definition has_live {V} (g : nat) (rows : list (grow V)) : bool :=
+  match live_vals g rows with [] => false | _ => true end.
+
+Lemma set_bits_nth {V} g (rows : list (grow V)) : forall b,
+  rows_below (length b) rows ->
+  nth g (fold_left (fun b r => if row_live r then upd_nth (row_group r) true b else b) rows b) false
+  = nth g b false || has_live g rows.
+Proof.
+  unfold has_live.
+  induction rows as [|r0 rows IH]; intros b Hb; [cbn; now rewrite orb_false_r|].
+  destruct r0 as [[g' [v|]] [|]]; inversion Hb as [|r rs Hr Hrs]; subst;
+    cbn [fold_left row_live row_group fst live_vals flat_map app]; fold (live_vals g rows);
+    try (apply IH; assumption).
+  unfold row_group in Hr. cbn in Hr.
+  rewrite IH by (now rewrite upd_nth_length). rewrite nth_upd_nth by assumption.
+  destruct (g' =? g)%nat eqn:E.
+  - apply Nat.eqb_eq in E. subst g'. rewrite Nat.eqb_refl. cbn [app]. now rewrite orb_true_r.
+  - rewrite Nat.eqb_sym, E. reflexivity.
+Qed.
+Lemma set_bits_length {V} (rows : list (grow V)) : forall b,
+  length (fold_left (fun b r => if row_live r then upd_nth (row_group r) true b else b) rows b) = length b.
+Proof.
+  induction rows as [|r rows IH]; intros; cbn [fold_left]; [reflexivity|].
+  rewrite IH. destruct (row_live r); [apply upd_nth_length|reflexivity].
+Qed.
+
+(* the contract of update_batch: a group index not yet known to the accumulator occurs in the batch that
+   introduces it (the hash table creates a group index because a row of this batch has that key) *)
+Definition covers {V} (s : seen) (total : nat) (rows : list (grow V)) : Prop :=
+  forall g, (seen_len s <= g < total)%nat -> exists r, In r rows /\ row_group r = g.
+
+Lemma all_live_has_live {V} g (rows : list (grow V)) :
+  forallb (fun r => match r with (_, Some _, _) => true | _ => false end) rows = true ->
+  Forall (fun r => snd r = true) rows ->
+  (exists r, In r rows /\ row_group r = g) -> has_live g rows = true.
+Proof.
+  unfold has_live. induction rows as [|[[g' [v|]] p] rows IH]; intros Hv Hp [r [Hin Hg]]; cbn in Hv; try discriminate.
+  - destruct Hin.
+  - pose proof (Forall_inv Hp) as Hp1. pose proof (Forall_inv_tail Hp) as Hp2. cbn in Hp1. subst p.
+    cbn [live_vals flat_map]. fold (live_vals g rows).
+    destruct Hin as [<-|Hin].
+    + unfold row_group in Hg. cbn in Hg. subst g'. rewrite Nat.eqb_refl. reflexivity.
+    + destruct (g' =? g)%nat; [reflexivity|]. cbn [app]. apply IH; eauto.
+Qed.
+
+Lemma null_accumulate_bit {V} s (rows : list (grow V)) hf total g :
+  (seen_len s <= total)%nat -> rows_below total rows -> covers s total rows ->
+  (hf = false -> Forall (fun r => snd r = true) rows) ->
+  (g < total)%nat ->
+  seen_bit (null_accumulate s rows hf total) g = seen_bit s g || has_live g rows.
+Proof.
+  intros Hl Hb Hc Hf Hg.
+  assert (Hslow : seen_bit (SSome (fold_left (fun b r => if row_live r then upd_nth (row_group r) true b else b)
+                                             rows (get_builder s total))) g = seen_bit s g || has_live g rows).
+  { cbn [seen_bit]. rewrite set_bits_nth by (now rewrite get_builder_length). now rewrite get_builder_nth. }
+  unfold null_accumulate. destruct s as [n|l]; [|exact Hslow].
+  match goal with |- context [if ?c then _ else _] => destruct c eqn:E end; [|exact Hslow].
+  apply andb_true_iff in E. destruct E as [E1 E2]. apply negb_true_iff in E1.
+  cbn [seen_bit]. replace (g <? total)%nat with true by (symmetry; now apply Nat.ltb_lt).
+  destruct (g <? n)%nat eqn:En; [reflexivity|]. apply Nat.ltb_ge in En. cbn [orb]. symmetry.
+  apply all_live_has_live; [exact E2 | now apply Hf | apply Hc; cbn; lia].
+Qed.
+Lemma null_accumulate_len {V} s (rows : list (grow V)) hf total :
+  (seen_len s <= total)%nat -> seen_len (null_accumulate s rows hf total) = total.
+Proof.
+  intros. unfold null_accumulate.
+  assert (seen_len (SSome (fold_left (fun b r => if row_live r then upd_nth (row_group r) true b else b)
+                                     rows (get_builder s total))) = total).
+  { cbn. now rewrite set_bits_length, get_builder_length. }
+  destruct s; [match goal with |- context [if ?c then _ else _] => destruct c end|]; auto.
+Qed.
+
+(* ---- update_batch: the view of every group after the batch *)
+Definition gwf (F : gfam) (st : gstate F) (total : nat) : Prop :=
+  (length (g_cells st) <= total)%nat /\ (seen_len (g_seen st) <= total)%nat.
+
+Lemma mk_rows_pass_all {V} (vals : list (option V)) gidx :
+  Forall (fun r : grow V => snd r = true) (mk_rows vals gidx None).
+Proof.
+  unfold mk_rows. apply Forall_forall. intros [[g v] p] H. apply in_combine_r in H.
+  apply in_map_iff in H. destruct H as [? [<- _]]. reflexivity.
+Qed.
+
+Theorem gupdate_view (F : gfam) st vals gidx filt total g :
+  let rows := mk_rows vals gidx filt in
+  gwf F st total -> rows_below total rows -> covers (g_seen st) total rows -> (g < total)%nat ->
+  gview F (gupdate F st vals gidx filt total) g
+  = (fold_left (g_step F) (live_vals g rows) (fst (gview F st g)),
+     if g_tracks F then snd (gview F st g) || has_live g rows else true).
+Proof.
+  intros rows [Hc Hs] Hb Hcov Hg. unfold gview, gupdate. cbn [g_cells g_seen fst snd].
+  fold rows. f_equal.
+  - rewrite apply_rows_nth by (now rewrite resize_length). now rewrite resize_nth.
+  - destruct (g_tracks F); [|reflexivity].
+    apply null_accumulate_bit; auto.
+    intros Hf. destruct filt; [discriminate|]. apply mk_rows_pass_all.
+Qed.
+Lemma gupdate_wf (F : gfam) st vals gidx filt total :
+  gwf F st total ->
+  (if g_tracks F then True else seen_len (g_seen st) = 0%nat) ->
+  length (g_cells (gupdate F st vals gidx filt total)) = total
+  /\ (if g_tracks F then seen_len (g_seen (gupdate F st vals gidx filt total)) = total
+      else seen_len (g_seen (gupdate F st vals gidx filt total)) = 0%nat).
+Proof.
+  intros [Hc Hs] Ht. unfold gupdate. cbn [g_cells g_seen]. split.
+  - now rewrite apply_rows_length, resize_length.
+  - destruct (g_tracks F); [now apply null_accumulate_len|assumption].
+Qed.
+
+(* ---- the link to the scalar optional-monoid accumulators: a (cell, seen) pair is the scalar state *)
+Definition to_opt {T} (v : T * bool) : option T := if snd v then Some (fst v) else None.
+Lemma cell_fold_scalar {T} (f : T -> T -> T) (start : T) (D : T -> Prop) :
+  (forall a b c, f (f a b) c = f a (f b c)) ->
+  (forall x, D x -> f start x = x) ->
+  forall c sn vs, Forall D vs -> (sn = false -> c = start) ->
+    to_opt (fold_left f vs c, sn || match vs with [] => false | _ => true end)
+    = comb f (to_opt (c, sn)) (reduce f vs).
+Proof.
+  intros Ha Hs c sn vs HD Hc. unfold to_opt. cbn [fst snd]. destruct vs as [|x r].
+  - rewrite orb_false_r. cbn. destruct sn; reflexivity.
+  - rewrite orb_true_r. cbn [reduce fold_left]. destruct sn; cbn [comb].
+    + now rewrite fold_left_f_assoc.
+    + rewrite Hc by reflexivity. inversion HD; subst. now rewrite Hs.
+Qed.
+
+(* ---- evaluate(EmitTo::First n) / state(First n): the first n groups leave, group g + n becomes group g *)
+Lemma nth_skipn {A} (d : A) n : forall l g, nth g (skipn n l) d = nth (n + g) l d.
+Proof. induction n; intros; [reflexivity|]. destruct l; [now destruct g|]. cbn [skipn plus nth]. apply IHn. Qed.
+
+Theorem emit_first_shifts (F : gfam) st n {X} (f : G_cell F -> X) (nul : X) g :
+  gview F (snd (gemit F st (Some n) f nul)) g = gview F st (n + g).
+Proof.
+  unfold gemit, gview. cbn [take_needed].
+  destruct (g_tracks F) eqn:Et.
+  - destruct (g_seen st) as [k|l]; cbn [null_build snd g_cells g_seen seen_bit]; rewrite nth_skipn; f_equal.
+    + destruct (g <? k - n)%nat eqn:E1, (n + g <? k)%nat eqn:E2; try reflexivity.
+      * apply Nat.ltb_lt in E1. apply Nat.ltb_ge in E2. lia.
+      * apply Nat.ltb_ge in E1. apply Nat.ltb_lt in E2. lia.
+    + apply nth_skipn.
+  - cbn [snd g_cells g_seen]. now rewrite nth_skipn.
+Qed.
+
+(* what is emitted is the view of the first n groups *)
+Lemma emit_rows_nth {C X} (f : C -> X) nul d dx valid (cells : list C) i :
+  (i < length cells)%nat ->
+  (match valid with Some bits => length bits = length cells | None => True end) ->
+  nth i (emit_rows valid cells f nul) dx
+  = if match valid with Some bits => nth i bits false | None => true end then f (nth i cells d) else nul.
+Proof.
+  intros Hi Hl. unfold emit_rows. destruct valid as [bits|].
+  - rewrite (nth_indep _ dx (if snd (d, false) then f (fst (d, false)) else nul))
+      by (rewrite map_length, combine_length; lia).
+    rewrite (map_nth (fun cb : C * bool => if snd cb then f (fst cb) else nul)).
+    rewrite combine_nth by (symmetry; assumption). reflexivity.
+  - rewrite (nth_indep _ dx (f d)) by (now rewrite map_length). now rewrite map_nth.
+Qed.
+Theorem emit_first_output (F : gfam) st n {X} (f : G_cell F -> X) (nul dx : X) i :
+  (i < n)%nat -> (n <= length (g_cells st))%nat ->
+  (g_tracks F = true -> seen_len (g_seen st) = length (g_cells st)) ->
+  nth i (fst (gemit F st (Some n) f nul)) dx
+  = if snd (gview F st i) then f (fst (gview F st i)) else nul.
+Proof.
+  intros Hi Hn Hs. unfold gemit, gview. cbn [take_needed fst snd].
+  destruct (g_tracks F) eqn:Et.
+  - specialize (Hs eq_refl). destruct (g_seen st) as [k|l]; cbn [null_build fst snd seen_bit seen_len] in *.
+    + rewrite (emit_rows_nth _ _ (g_start F)) by (rewrite ?firstn_length; cbn; auto; lia).
+      replace (i <? k)%nat with true by (symmetry; apply Nat.ltb_lt; lia).
+      now rewrite nth_firstn_lt.
+    + rewrite (emit_rows_nth _ _ (g_start F)) by (rewrite ?firstn_length; cbn; auto; lia).
+      rewrite !nth_firstn_lt by assumption. reflexivity.
+  - rewrite (emit_rows_nth _ _ (g_start F)) by (rewrite ?firstn_length; cbn; auto; lia).
+    now rewrite nth_firstn_lt.
+Qed.
+
+(* ---- convert_to_state: row i is the state a fresh accumulator emits after seeing row i alone *)
+Theorem convert_to_state_eq (F : gfam) (v : option Z) (fi : option (option bool)) :
+  let filt := option_map (fun x => [x]) fi in
+  gconvert F [v] filt = fst (gstate_rows F (gupdate F (ginit F) [v] [O] filt 1) None).
+Proof.
+  unfold gconvert, gstate_rows, gemit, gupdate, ginit, mk_rows. cbn [map g_cells g_seen take_needed].
+  destruct fi as [[[|]|]|]; destruct v as [z|]; cbn [option_map map combine];
+    unfold resize, apply_rows; cbn [length Nat.sub repeat app firstn fold_left nth upd_nth];
+    destruct (g_tracks F) eqn:Et; cbn; rewrite ?Et; try reflexivity.
+Qed.
+Lemma gconvert_rowwise (F : gfam) v vs f fs :
+  gconvert F (v :: vs) (Some (f :: fs)) = gconvert F [v] (Some [f]) ++ gconvert F vs (Some fs).
+Proof. reflexivity. Qed.
+Lemma gconvert_rowwise_nofilter (F : gfam) v vs :
+  gconvert F (v :: vs) None = gconvert F [v] None ++ gconvert F vs None.
+Proof. reflexivity. Qed.
